@@ -306,7 +306,7 @@ def main():
                             stats["maxshift"] = sh
                 return tracer
             import time
-            for rep in range(3):
+            for rep in range(5):
                 d = Decoder(max_header_list_size=zp(w[1]))
                 t0 = time.process_time()
                 rr = call(lambda: d.decode(data, raw=(w[2] == "1")), show_headers) + " " + show_dec(d)
